@@ -1,6 +1,6 @@
 import Driver.Proto
 import ScrapliModel.Lemmas.PrivSession
-namespace Driver
+namespace Driver.C04
 namespace C04
 open Scrapli Scrapli.Priv
 
@@ -155,4 +155,4 @@ def handleC04 : List String → String
     | _, _, _, _, _ => "bad-op"
   | _ => "bad-op"
 
-end Driver
+end Driver.C04
